@@ -209,6 +209,20 @@ def sym_in(x, y):
     return x in y
 
 
+def sym_join(sep, it):
+    parts = _b.list(it)
+    if not _anysym(parts) and not isinstance(sep, Sym):
+        return sep.join(parts)
+    out = ''
+    for i, p in enumerate(parts):
+        if not (_b.isinstance(p, _b.str) or getattr(p, '_pytype', None) is _b.str):
+            raise TypeError('sequence item %d: expected str instance' % i)
+        if i:
+            out = out + sep
+        out = out + p
+    return out
+
+
 def sym_not(x):
     if isinstance(x, Sym):
         return Not(x)
@@ -428,7 +442,7 @@ class _SymMath(object):
 
 SHADOWS = {
     '__sym_mod': sym_mod, '__sym_pow': sym_pow, '__sym_in': sym_in, '__sym_not': sym_not,
-    '__sym_is_none': sym_is_none, '__sym_fstr': sym_fstr, '__PathEnd': PathEnd,
+    '__sym_is_none': sym_is_none, '__sym_join': sym_join, '__sym_fstr': sym_fstr, '__PathEnd': PathEnd,
     'int': s_int, 'float': s_float, 'str': s_str, 'repr': s_repr, 'len': s_len, 'bool': s_bool,
     'isinstance': s_isinstance, 'max': s_max, 'min': s_min, 'divmod': s_divmod, 'round': s_round,
     'abs': s_abs, 'sum': s_sum, 'any': s_any, 'all': s_all,
